@@ -2,20 +2,31 @@
 (* constant definitions for the WsImpl configurations *)
 EXTENDS WsImpl
 
+\* two ids, two instances of the first
 MCIds == {"a", "b"}
 MCInsts == {"a1", "a2", "b1"}
 MCIdOf == [i \in MCInsts |-> IF i = "b1" THEN "b" ELSE "a"]
 MCOrder == <<"a1", "a2", "b1">>
 
+\* one id started twice
 MCIds1 == {"a"}
 MCInsts1 == {"a1", "a2"}
 MCIdOf1 == [i \in MCInsts1 |-> "a"]
 MCOrder1 == <<"a1", "a2">>
 
+\* one operation
+MCInsts0 == {"a1"}
+MCIdOf0 == [i \in MCInsts0 |-> "a"]
+MCOrder0 == <<"a1">>
+
+\* client alphabets (message classes; Ws.tla EndsConn / WsImpl InitProg, RunProg)
 AlphaGws == {"init", "start", "stop", "term", "abort"}
 AlphaGwsFull == {"init", "initbad", "start", "stop", "term", "invalid", "s2c", "abort", "closef"}
 AlphaTws == {"init", "start", "stop", "ping", "pong", "abort"}
 AlphaTwsFull == {"init", "initbad", "start", "stop", "ping", "pong", "invalid", "s2c", "abort", "closef"}
+AlphaOps == {"start", "stop", "term", "abort"}
+AlphaOpsS == {"start", "stop"}
+AlphaTwsOps == {"start", "stop", "ping", "pong", "abort"}
 KindsAll == {"end", "suberr", "panic"}
 KindsEnd == {"end"}
 =============================================================================
